@@ -55,7 +55,7 @@ impl TryRng for ScriptRng {
 
 fn scripts(tier: Tier) -> Vec<(u64, Vec<(usize, u64)>)> {
     let mut v: Vec<(u64, Vec<(usize, u64)>)> = Vec::new();
-    let seeds = tier.pick(6u64, 32);
+    let seeds = tier.pick(6u64, 128);
     for s in 0..seeds {
         v.push((s, vec![]));
     }
